@@ -99,7 +99,9 @@ func demux(file []byte, c Case, want []flvref.Tag) error {
 		if !bytes.Equal(body, w.Body) {
 			return fmt.Errorf("tag %d: body of %d bytes differs (got %d bytes)", i, len(w.Body), len(body))
 		}
-		if len(body) <= 1<<16 {
+		if i%2 == 1 {
+			ev.Trash(body) // the body belongs to the application: it overwrites it (spare capacity included) before it reads on
+		} else if len(body) <= 1<<16 {
 			kept = append(kept, keptTag{i, body})
 		}
 	}
